@@ -2,6 +2,7 @@ package props
 
 import (
 	"fmt"
+	"iter"
 	"math/rand"
 	"runtime"
 	"sync"
@@ -68,11 +69,16 @@ func runIter(c iterCase) outcome {
 	defer cache.StopAllGoroutines()
 	const baseStable, baseExpired, baseChurn, baseFiller = 1_000_000, 2_000_000, 0, 3_000_000
 	nExpired := 0
+	var earlyAll iter.Seq2[int, int]
+	var earlyKeys iter.Seq[int]
 	if c.Expiry {
 		nExpired = c.Expired
 		for i := 0; i < nExpired; i++ {
 			cache.Set(baseExpired+i, i)
 		}
+		// iterators obtained while those keys are still live, ranged (again and again) only after they have expired:
+		// an iteration must not yield an entry that had expired before it (the ranging) began
+		earlyAll, earlyKeys = cache.All(), cache.Keys()
 		clock.Advance(5000) // every key written so far has expired (and is not swept: no maintenance tick passed)
 	} else {
 		// without expiry: keys removed before the iteration began
@@ -104,6 +110,14 @@ func runIter(c iterCase) outcome {
 			for k := range cache.Keys() {
 				seen[k]++
 			}
+		case 2:
+			for k := range earlyAll {
+				seen[k]++
+			}
+		case 3:
+			for k := range earlyKeys {
+				seen[k]++
+			}
 		}
 		for k, n := range seen {
 			if n > 1 {
@@ -113,12 +127,16 @@ func runIter(c iterCase) outcome {
 				fail("an iteration yielded key %d, which had expired / been removed before the iteration began", k)
 			}
 		}
-		for i := 0; i < c.Stable; i++ {
+		for i := 0; i < c.Stable && which < 2; i++ { // (an iterator created before the stable keys were written need not show them)
 			if seen[baseStable+i] != 1 {
 				fail("an iteration yielded stable key %d %d times (it was present and live for the whole iteration)", baseStable+i, seen[baseStable+i])
 			}
 		}
 		iterations.Add(1)
+	}
+	nVariants := 2
+	if c.Expiry {
+		nVariants = 4
 	}
 	for w := 0; w < c.Workers; w++ {
 		wg.Add(1)
@@ -135,7 +153,7 @@ func runIter(c iterCase) outcome {
 				case r < 90:
 					cache.GetIfPresent(baseStable + rng.Intn(c.Stable))
 				default:
-					iterate(rng.Intn(2))
+					iterate(rng.Intn(nVariants))
 				}
 			}
 		}(w)
@@ -158,7 +176,7 @@ func runIter(c iterCase) outcome {
 	go func() {
 		defer wg.Done()
 		for i := 0; i < 20 && bad.Load() == nil; i++ {
-			iterate(i % 2)
+			iterate(i % nVariants)
 		}
 	}()
 	wg.Wait()
@@ -187,7 +205,7 @@ func runIter(c iterCase) outcome {
 func TestC15_CacheIteration(t *testing.T) {
 	propMain(t, propSpec[iterCase]{
 		Prop: "C15", Test: "CacheIteration",
-		Rule: "free-running: a cache (unbounded, with or without write-based expiry, manual clock frozen during the run) is preloaded with a set of keys that expired (clock advanced past their TTL, not swept) or were removed before the run and a stable set of 1-400 live keys; 1-8 workers then churn other keys (Set/Invalidate), read stable keys and run All()/Keys(), " +
+		Rule: "free-running: a cache (unbounded, with or without write-based expiry, manual clock frozen during the run) is preloaded with a set of keys that expired (clock advanced past their TTL, not swept) or were removed before the run and a stable set of 1-400 live keys; 1-8 workers then churn other keys (Set/Invalidate), read stable keys and run All()/Keys() - fresh iterators, and (with expiry) iterators that were obtained while the expired set was still live and are ranged, repeatedly, after its deadline - , " +
 			"a filler goroutine inserts and removes up to 3000 keys in waves (table growth and shrink), GOMAXPROCS 3..16, optional delays at hook points; oracle for every iteration: no key twice, never a key of the expired/removed-before set, every stable key exactly once; non-trivial = iterations ran while the table was resized and the expired/removed set was non-empty",
 		Assumptions: []string{"schedules are sampled by the Go runtime, not enumerated"},
 		Gen:         genIter, Run: runIter,
